@@ -724,7 +724,7 @@ impl Property for C07Prop {
     fn budget(&self, tier: Tier) -> Budget {
         match tier {
             Tier::Quick => Budget { runs: 8_000, wall_cap_s: 35 },
-            Tier::Thorough => Budget { runs: 100_000, wall_cap_s: 360 },
+            Tier::Thorough => Budget { runs: 100_000, wall_cap_s: 340 },
         }
     }
     fn modes(&self) -> u32 {
